@@ -64,6 +64,7 @@ def run(tier):
         cc.sim_phase(chk, PID, name, c, MINE, 16000 if th else 2400, 9, {"scenario": "tmpl", "numeric": False, "pnu": pnu, "tmpl_loss": loss},
                      nontrivial_fn=onto_ancilla)
     cc.script_phase(chk, PID, "findings", cc.load_corpus(PID), MINE)
+    cc.repo_tests_phase(chk, PID, MINE, ["tests/sdk/circuit_test.py"] + (["tests/qubit", "tests/interferometers", "tests/sdk/display_test.py", "tests/tomography"] if th else []))
     cc.trace_phase(chk, PID, "wiring_ring", 2400 if th else 400, "wiring", MINE, numeric=True)
     cc.trace_phase(chk, PID, "wiring_float", 2400 if th else 320, "wiring", MINE, numeric=False)
     chk.assumptions = ["TLC 1.8 + CommunityModules", "TLA+ value parser", "evaluator ev.py (calibrated against TLC in this run)",
